@@ -309,6 +309,18 @@ package keeper
 //@   ensures #c18-borrow-spec: secs >= 0 ==> result4 == nil && result0 == indexAccrual(amt, rate, borrow.GlobalIndex, secs) && result1 == decMul(borrow.GlobalIndex, ONE + decMul(rate, years(secs)))
 //@   ensures #c18-reserve-spec: secs >= 0 ==> result4 == nil && result2 == indexAccrual(amt, reserveRate, borrow.ReserveGlobalIndex, secs) && result3 == decMul(borrow.ReserveGlobalIndex, ONE + decMul(reserveRate, years(secs)))
 
+// Fixed-point multiplication by a non-negative factor is monotone (used by the laws below through `apply`).
+//@ lemma DecMulMonotone(a, x, y)
+//@   property C18
+//@   requires 0 <= a && a <= pow2(63) * ONE && 0 <= x && x <= y && y <= pow2(120)
+//@   ensures slow #mono: decMul(a, x) <= decMul(a, y)
+
+// Fixed-point division by a positive divisor is monotone in the dividend.
+//@ lemma DecQuoMonotone(x, y, d)
+//@   property C18
+//@   requires 0 <= x && x <= y && y <= pow2(200) && 0 < d && d <= pow2(100)
+//@   ensures slow #mono: decQuo(x, d) <= decQuo(y, d)
+
 // Laws of the two accrual spec functions (C18), for all amounts, rates, indexes and times in the stated ranges.
 //@ lemma StableAccrualLaws(amt, rate, s1, s2)
 //@   property C18
@@ -342,21 +354,28 @@ package keeper
 //@ lemma IndexAccrualMonotoneInTime(amt, rate, idx, s1, s2)
 //@   property C18
 //@   requires 0 <= amt && amt <= pow2(63) * ONE && 0 <= rate && rate <= 100 * ONE && 0 < idx && idx <= pow2(100) && 0 <= s1 && s1 <= s2 && s2 <= pow2(40)
-//@   ensures #y: years(s1) <= years(s2)
-//@   ensures slow #e: decMul(rate, years(s1)) <= decMul(rate, years(s2)) by #y
-//@   ensures slow #m: decMul(idx, ONE + decMul(rate, years(s1))) <= decMul(idx, ONE + decMul(rate, years(s2))) by #e
-//@   ensures slow #q: decQuo(decMul(idx, ONE + decMul(rate, years(s1))), idx) <= decQuo(decMul(idx, ONE + decMul(rate, years(s2))), idx) by #m
-//@   ensures slow #c18-mono-time: indexAccrual(amt, rate, idx, s1) <= indexAccrual(amt, rate, idx, s2) by #q
+//@   ensures #y: 0 <= years(s1) && years(s1) <= years(s2) && years(s2) <= pow2(100)
+//@   apply DecMulMonotone(rate, years(s1), years(s2))
+//@   ensures #e: 0 <= decMul(rate, years(s1)) && decMul(rate, years(s1)) <= decMul(rate, years(s2)) && decMul(rate, years(s2)) <= pow2(110) by #y
+//@   apply DecMulMonotone(idx, ONE + decMul(rate, years(s1)), ONE + decMul(rate, years(s2)))
+//@   ensures #m: 0 <= decMul(idx, ONE + decMul(rate, years(s1))) && decMul(idx, ONE + decMul(rate, years(s1))) <= decMul(idx, ONE + decMul(rate, years(s2))) && decMul(idx, ONE + decMul(rate, years(s2))) <= pow2(200) by #e
+//@   apply DecQuoMonotone(decMul(idx, ONE + decMul(rate, years(s1))), decMul(idx, ONE + decMul(rate, years(s2))), idx)
+//@   ensures #q: 0 <= growth(rate, idx, s1) && growth(rate, idx, s1) <= growth(rate, idx, s2) && growth(rate, idx, s2) <= pow2(120) by #m
+//@   apply DecMulMonotone(amt, growth(rate, idx, s1), growth(rate, idx, s2))
+//@   ensures #c18-mono-time: indexAccrual(amt, rate, idx, s1) <= indexAccrual(amt, rate, idx, s2) by #q
 
 //@ pred growth(rate, idx, secs): decQuo(decMul(idx, ONE + decMul(rate, years(secs))), idx)
 
 //@ lemma IndexAccrualMonotoneInRate(amt, r1, r2, idx, s)
 //@   property C18
 //@   requires 0 <= amt && amt <= pow2(63) * ONE && 0 <= r1 && r1 <= r2 && r2 <= 100 * ONE && 0 < idx && idx <= pow2(100) && 0 <= s && s <= pow2(40)
-//@   ensures slow #e: decMul(r1, years(s)) <= decMul(r2, years(s))
-//@   ensures slow #m: decMul(idx, ONE + decMul(r1, years(s))) <= decMul(idx, ONE + decMul(r2, years(s))) by #e
-//@   ensures slow #q: growth(r1, idx, s) <= growth(r2, idx, s) by #m
-//@   ensures slow #c18-mono-rate: indexAccrual(amt, r1, idx, s) <= indexAccrual(amt, r2, idx, s) by #q
+//@   ensures #e: 0 <= decMul(r1, years(s)) && decMul(r1, years(s)) <= decMul(r2, years(s)) && decMul(r2, years(s)) <= pow2(110)
+//@   apply DecMulMonotone(idx, ONE + decMul(r1, years(s)), ONE + decMul(r2, years(s)))
+//@   ensures #m: 0 <= decMul(idx, ONE + decMul(r1, years(s))) && decMul(idx, ONE + decMul(r1, years(s))) <= decMul(idx, ONE + decMul(r2, years(s))) && decMul(idx, ONE + decMul(r2, years(s))) <= pow2(200) by #e
+//@   apply DecQuoMonotone(decMul(idx, ONE + decMul(r1, years(s))), decMul(idx, ONE + decMul(r2, years(s))), idx)
+//@   ensures #q: 0 <= growth(r1, idx, s) && growth(r1, idx, s) <= growth(r2, idx, s) && growth(r2, idx, s) <= pow2(120) by #m
+//@   apply DecMulMonotone(amt, growth(r1, idx, s), growth(r2, idx, s))
+//@   ensures #c18-mono-rate: indexAccrual(amt, r1, idx, s) <= indexAccrual(amt, r2, idx, s) by #q
 
 //@ lemma IndexAccrualMonotoneInPrincipal(a1, a2, f)
 //@   property C18
@@ -375,4 +394,9 @@ package keeper
 //@   ensures #qb: 2 * idx * growth(rate, idx, s2) <= 2 * ONE * decMul(idx, ONE + decMul(rate, years(s2))) + idx
 //@   ensures #qc: 2 * idx * growth(rate, idx, s1 + s2) >= 2 * ONE * decMul(idx, ONE + decMul(rate, years(s1 + s2))) - idx - 2 * (idx / ONE) - 2
 //@   ensures slow #q: growth(rate, idx, s1) + growth(rate, idx, s2) <= growth(rate, idx, s1 + s2) + ONE + 6 by #m, #qa, #qb, #qc
-//@   ensures slow #c18-two-intervals: indexAccrual(amt, rate, idx, s1) + indexAccrual(amt, rate, idx, s2) <= indexAccrual(amt, rate, idx, s1 + s2) + 6 * (amt / ONE) + 8 by #q
+//@   ensures #f1: decMul(amt, growth(rate, idx, s1)) + decMul(amt, growth(rate, idx, s2)) <= decMul(amt, growth(rate, idx, s1) + growth(rate, idx, s2)) + 1
+//@   apply DecMulMonotone(amt, growth(rate, idx, s1) + growth(rate, idx, s2), growth(rate, idx, s1 + s2) + ONE + 6)
+//@   ensures slow #g: 0 <= growth(rate, idx, s1) + growth(rate, idx, s2) && growth(rate, idx, s1 + s2) + ONE + 6 <= pow2(120)
+//@   ensures #f2: decMul(amt, growth(rate, idx, s1) + growth(rate, idx, s2)) <= decMul(amt, growth(rate, idx, s1 + s2) + ONE + 6) by #q, #g
+//@   ensures #f3: decMul(amt, growth(rate, idx, s1 + s2) + ONE + 6) <= decMul(amt, growth(rate, idx, s1 + s2)) + amt + 6 * (amt / ONE) + 7
+//@   ensures #c18-two-intervals: indexAccrual(amt, rate, idx, s1) + indexAccrual(amt, rate, idx, s2) <= indexAccrual(amt, rate, idx, s1 + s2) + 6 * (amt / ONE) + 8 by #f1, #f2, #f3
